@@ -469,6 +469,7 @@ package graph
 //@   ensures  imp(!descends(self, v), dvisited == old(dvisited) && reported == add(old(reported), captured(next, "graph.(*Graph).dfs$1", "w")))
 //@   ensures  dom(captured(next, "graph.(*Graph).dfs$1", "visited")) == dvisited
 //@   ensures  graphKept()
+//@   ensures  [sets-only-grow] forall(m, VisitM, k, any, imp(old(allocated(m)) && old(has(m, k)), has(m, k)))
 //@   assigns  VisitM, reported, dvisited
 
 //@ func (*Graph).dfs$1
@@ -476,6 +477,7 @@ package graph
 //@   ensures  imp(result == nil, dfsPost(g, cb, w))
 //@   ensures  dom(visited) == dvisited && graphKept()
 //@   ensures  forall(k, any, imp(old(in(k, reported)), in(k, reported))) && forall(k, any, imp(old(in(k, dvisited)), in(k, dvisited)))
+//@   ensures  [sets-only-grow] forall(m, VisitM, k, any, imp(old(allocated(m)) && old(has(m, k)), has(m, k)))
 //@   assigns  VisitM, reported, dvisited
 
 //@ func (*Graph).dfs
@@ -484,8 +486,10 @@ package graph
 //@   ensures  [mirror] dom(visited) == dvisited
 //@   ensures  [graph-kept] graphKept()
 //@   ensures  [monotone] forall(k, any, imp(old(in(k, reported)), in(k, reported))) && forall(k, any, imp(old(in(k, dvisited)), in(k, dvisited)))
+//@   ensures  [sets-only-grow] forall(m, VisitM, k, any, imp(old(allocated(m)) && old(has(m, k)), has(m, k)))
 //@   assigns  VisitM, reported, dvisited
 //@   after "visited[v] = struct{}{}" set dvisited = add(dvisited, v)
+//@   loop 1 invariant [sets-only-grow] forall(m, VisitM, k, any, imp(old(allocated(m)) && old(has(m, k)), has(m, k)))
 //@   loop 1 invariant graphKept() && dom(visited) == dvisited && rmap1 == g.adjacencyOut[v]
 //@   loop 1 invariant forall(k, any, imp(old(in(k, dvisited)), in(k, dvisited))) && in(v, dvisited) && forall(k, any, imp(old(in(k, reported)), in(k, reported)))
 //@   loop 1 invariant forall(x, any, y, any, imp(in(x, dvisited) && !old(in(x, dvisited)) && x != v && edge(g, x, y), in(y, dvisited) || (in(y, reported) && !descends(cb, g.hash[y]))))
@@ -501,6 +505,7 @@ package graph
 //@               && forall(x, any, imp(in(x, dvisited) && x != hc(start), in(x, reported) && descends(cb, g.hash[x]))))
 //@   ensures  [graph-kept] graphKept()
 //@   ensures  [monotone] forall(k, any, imp(old(in(k, reported)), in(k, reported)))
+//@   ensures  [sets-only-grow] forall(m, VisitM, k, any, imp(old(allocated(m)) && old(has(m, k)), has(m, k)))
 //@   assigns  VisitM, reported, dvisited
 //@   before "return g.dfs(" set dvisited = emptyset(any)
 
